@@ -103,6 +103,24 @@ def outputs(text, ru=False):
     return ode, py, c
 
 
+def _saved(ode):
+    import tempfile, os
+
+    d = tempfile.mkdtemp(prefix="c10_", dir=B.scratch_root())
+    try:
+        path = os.path.join(d, "m.ode")
+        try:
+            ode.save(path)
+        except Exception:
+            return None  # what can be saved is C11's business
+        with open(path) as fh:
+            return fh.read()
+    finally:
+        import shutil
+
+        shutil.rmtree(d, ignore_errors=True)
+
+
 def check_case(case):
     model = case["model"]
     t0 = X.render_model(model)
@@ -147,6 +165,10 @@ def check_case(case):
             raise Violation("C10:python-output-differs", dict(ctx, diff=_first_diff(py0, pyp)))
         if cp != c0:
             raise Violation("C10:c-output-differs", dict(ctx, diff=_first_diff(c0, cp)))
+        # the .ode writer is a code generator too: equal models are saved as the same text
+        s0, sp_ = _saved(ode0), _saved(odep)
+        if s0 is not None and sp_ is not None and s0 != sp_:
+            raise Violation("C10:saved-ode-text-differs", dict(ctx, diff=_first_diff(s0, sp_)))
         if not (odep == ode0) or not (ode0 == odep):
             raise Violation("C10:models-not-equal", dict(ctx, components_a=[c.name for c in ode0.components], components_b=[c.name for c in odep.components]))
         if moved_use_before_def(bl):
